@@ -1619,6 +1619,16 @@ class Executor:
                 self.fact(z3.Implies(z3.And(*pre_conds), f) if pre_conds else f)
             if memo_key is not None:
                 self.__dict__.setdefault("pure_memo", {})[memo_key] = res
+                rel_fn = getattr(callee, "pair_facts", None)
+                if rel_fn is not None:
+                    # relational facts between this call and every earlier call of the same pure function (a lemma about TWO executions, proved
+                    # separately and named by the contract - e.g. monotonicity)
+                    calls = self.__dict__.setdefault("pure_calls", {}).setdefault(callee.target, [])
+                    for (ovals, ores, opre) in calls:
+                        for f in rel_fn(self, ovals, ores, vals, res):
+                            self.fact(z3.Implies(z3.And(*(pre_conds + opre)), f) if (pre_conds or opre) else f)
+                    calls.append((vals, res, list(pre_conds)))
+                    self.assumptions.add(getattr(callee, "pair_lemma", "relational lemma supplied by the contract"))
             return res
         finally:
             self.cls_stack = saved_cls
